@@ -274,13 +274,17 @@ Definition init_from_fp (k : fkind) (s : list ev) : res (bool * mb) :=
 (* ------------------------------------------------------------------------------------ *)
 (* spif_mbuff_done (mbuff.c:298) *)
 Definition done (m : mb) : bool * mb :=
-  if size m =? 0 then (true, m) else (true, mb_null).
+  match buff m with None => (true, m) | Some _ => (true, mb_null) end.   (* tests the pointer (repo fix 1b9e71a) *)
 
 (* spif_mbuff_dup (mbuff.c:377) *)
 Definition dup (m : mb) : res mb :=
-  b <- MALLOC (size m) ;;
-  b' <- memcpy b 0 (buff m) 0 (size m) ;;
-  Ok (MB b' (len m) (size m)).
+  match buff m with
+  | None => Ok (MB None (len m) (size m))       (* no block to copy (repo fix f55e6ee) *)
+  | Some _ =>
+    b <- MALLOC (size m) ;;
+    b' <- memcpy b 0 (buff m) 0 (size m) ;;
+    Ok (MB b' (len m) (size m))
+  end.
 
 (* spif_mbuff_append (mbuff.c:399) *)
 Definition append (m : mb) (other : option mb) : res (bool * mb) :=
